@@ -96,9 +96,44 @@ Lemma stv_init_inv : forall cfg (p : profile) t, stv_init cfg p = inl t ->
 Proof.
   intros cfg p t. unfold STV.stv_init, rbind.
   destruct (stv_validate cand p) as [[]|e]; [|discriminate].
+  destruct (is_trandom (s_transfer cfg) && negb (forallb (fun b => is_integral (wt b)) (ballots p)));
+    [discriminate|].
   destruct ((s_m cfg <=? 0)%Z || (Z.of_nat (length (cands p)) <? s_m cfg)%Z) eqn:E; [discriminate|].
   intros H. apply orb_false_iff in E. destruct E as [E1 E2].
   apply Z.leb_gt in E1. apply Z.ltb_ge in E2. repeat split; try lia. exact H.
+Qed.
+
+(* since the up-front check in STV.__init__: a successful init with the random transfer implies
+   that every ballot weight is integral *)
+Lemma stv_init_random_integral : forall cfg (p : profile) t, stv_init cfg p = inl t ->
+  s_transfer cfg = TRandom ->
+  forallb (fun b => is_integral (wt b)) (ballots p) = true.
+Proof.
+  intros cfg p t. unfold STV.stv_init, rbind.
+  destruct (stv_validate cand p) as [[]|e]; [|discriminate].
+  intros H Ht. rewrite Ht in H. cbn [is_trandom andb] in H.
+  destruct (forallb (fun b => is_integral (wt b)) (ballots p)); [reflexivity|discriminate].
+Qed.
+
+(* the up-front check itself: with the random transfer, a validated profile with a non-integral
+   weight is refused with EType, whatever m and the quota *)
+Lemma stv_init_random_nonint : forall cfg (p : profile),
+  stv_validate cand p = inl tt -> s_transfer cfg = TRandom ->
+  forallb (fun b => is_integral (wt b)) (ballots p) = false ->
+  stv_init cfg p = inr EType.
+Proof.
+  intros cfg p Hv Ht Hi. unfold STV.stv_init, rbind. rewrite Hv, Ht, Hi. reflexivity.
+Qed.
+
+(* when the check passes (transfer not random, or all weights integral) init is what it was before *)
+Lemma stv_init_past_check : forall cfg (p : profile),
+  stv_validate cand p = inl tt ->
+  is_trandom (s_transfer cfg) && negb (forallb (fun b => is_integral (wt b)) (ballots p)) = false ->
+  stv_init cfg p =
+  if ((s_m cfg <=? 0) || (Z.of_nat (length (cands p)) <? s_m cfg))%Z then inr EValue
+  else threshold (s_quota cfg) (s_m cfg) (total_wt (ballots p)).
+Proof.
+  intros cfg p Hv Hc. unfold STV.stv_init, rbind. rewrite Hv, Hc. reflexivity.
 Qed.
 
 Theorem threshold_value : forall cfg (p : profile) t,
